@@ -442,6 +442,35 @@ theorem unwritten_vars_constant (v : PkgVar) (hc : classify v = some .immutable 
 example : varRun (⟨3, []⟩ : SharedVar Nat) [.read, .read] = some ⟨3, []⟩ ∧
     varRun (⟨3, ["x.go:1"]⟩ : SharedVar Nat) [.read, .assign "x.go:1" 4] = some ⟨4, ["x.go:1"]⟩ := ⟨rfl, by simp [varRun, varStep]⟩
 
+/-- **The crypto packages keep no object with internal state at package level.** Of the
+regenerated inventory, every variable of crypto, crypto/aeskw, crypto/padding, crypto/aescbcaead is
+an error sentinel (`errors.New`, compared by identity, never written) — or the byte slice
+`aeskw.defaultIV`, which has no write site (`aeskw_default_iv_immutable`); no method is called on
+any of them and none needs a lock. The kind matters, not only the absence of writes: a package-level
+`map`/interface/pointer/struct variable may hold an object whose methods change it (a `hash.Hash`,
+a `cipher.BlockMode`, a `bufio.Reader`, a `*big.Int` scratch value) while the variable itself is
+never assigned — `classify` would call it `immutable`, and two calls that overlap in time would
+then work on one digest state. With this table, what a crypto entry point mutates is reachable
+only from its own arguments and its own allocations (Go scoping; the packages use neither `unsafe`
+nor package-level closures — a `func`-typed variable is an unknown kind, on which factgen aborts).
+That overlapping calls on independent keys and messages then give their solo results is what the
+harness family `crypto-overlap` observes on the real code for every algorithm. -/
+theorem crypto_package_vars_stateless :
+    ∀ v ∈ Kit.Generated.C08.pkgVars,
+      v.pkg ∈ ["crypto", "crypto/aeskw", "crypto/padding", "crypto/aescbcaead"] →
+      (v.kind = "error-value" ∨ (v.kind = "slice" ∧ v.qname = "crypto/aeskw.defaultIV")) ∧
+      v.writes = [] ∧ v.calls = [] ∧ v.guardedBy = "" ∧ classify v = some .immutable := by decide
+
+/-- non-vacuity: nine variables are concerned; and a never-assigned package-level table of digest
+objects — `var oaepHashers = map[crypto.Hash]hash.Hash{…}` as the inventory would list it — passes
+`classify` as `immutable` but not the condition above -/
+example : (Kit.Generated.C08.pkgVars.filter fun v =>
+      v.pkg ∈ ["crypto", "crypto/aeskw", "crypto/padding", "crypto/aescbcaead"]).length = 9 ∧
+    (let v : PkgVar := { pkg := "crypto", name := "oaepHashers", exported := false, kind := "map",
+                         writes := [], calls := [], guardedBy := "" }
+     classify v = some .immutable ∧ ¬ (v.kind = "error-value" ∨ (v.kind = "slice" ∧ v.qname = "crypto/aeskw.defaultIV"))) := by
+  decide
+
 /-! ## byteslicepool -/
 
 /-- **A recycled slice is indistinguishable from a fresh one**: with `Get` clearing up to the
